@@ -203,7 +203,9 @@ func cmdCheck(args []string) int {
 			case o.Status == "failed" && !o.Candidate:
 				fmt.Printf("VIOLATION property=%s replay=%s obligation=%s no-failing-input-found\n", id, rp, o.Name)
 				violations++
-			case baseline[o.Name]:
+			case baseline[o.Name] || baseline[baseOblName(o.Name)]:
+				// (a changed control-flow graph renumbers the path copies `name~2`, `name~3` of an
+				// obligation: the clause itself was discharged on the unchanged tree)
 				fmt.Printf("VIOLATION property=%s replay=%s obligation=%s no-failing-input-found\n", id, rp, o.Name)
 				violations++
 			default:
